@@ -103,6 +103,14 @@ class PinWorld:
                     b = Ball(len(self.balls))
                     b.kind, b.dev, b.switch = "dev", info.name, sw
                     self.balls.append(b)
+            if info.entrance_switch is not None and info.entrance_full_timeout and not info.ball_switches and \
+                    m.switch_controller.is_active(info.entrance_switch):
+                # a full entrance-counted device: its last ball rests on the entrance switch
+                for i in range(info.capacity):
+                    b = Ball(len(self.balls))
+                    b.kind, b.dev = "dev", info.name
+                    b.switch = info.entrance_switch if i == info.capacity - 1 else None
+                    self.balls.append(b)
         self.sim.hw.driver_listeners.append(self._driver_cmd)
 
     def stat(self, name):
@@ -164,6 +172,8 @@ class PinWorld:
                 if b.switch is info.jam_switch:
                     return b
         order = {sw: i for i, sw in enumerate(info.ball_switches)}
+        if info.entrance_switch is not None:
+            order[info.entrance_switch] = 100       # the ball resting on the entrance switch is the last one to leave
         cands.sort(key=lambda b: (order.get(b.switch, 99), b.id))
         return cands[0]
 
@@ -213,7 +223,10 @@ class PinWorld:
         if sw is not None:
             self._switch(sw, 0)
         elif info.entrance_switch is not None and info.entrance_full_timeout:
-            pass
+            # the remaining balls roll down one position: the ball that rested on the entrance switch rolls off it
+            for o in self.balls:
+                if o is not ball and o.kind == "dev" and o.dev == info.name and o.switch is info.entrance_switch:
+                    self._later(self.rt.pick("roll_off", [0.3, 0.15, 0.5]), self._roll_off, o, info)
         if outcome == "fallback":
             ball.dst = info.name
             # a ball that falls back does so within the device's eject timeout (that is what the timeout is configured for)
@@ -237,6 +250,12 @@ class PinWorld:
             tau = self.rt.pick("transit", [0.3, 0.1, 0.5, 0.9, 1.4])
             tau = min(tau, hi)
         self._later(tau, self._arrive, ball, info.target.name, False)
+
+    def _roll_off(self, ball, info):
+        if ball.kind == "dev" and ball.dev == info.name and ball.switch is info.entrance_switch \
+                and self.count(info.name) < info.capacity:
+            ball.switch = None
+            self._switch(info.entrance_switch, 0)
 
     def _pulse_switch(self, sw, width):
         self._switch(sw, 1)
